@@ -107,6 +107,9 @@ type Spec[C any] struct {
 	Quick       Budget
 	Thorough    Budget
 	Workers     int // 0 = all cores
+	// ReplayTries > 1 lets a replay re-execute a case several times: only for
+	// properties whose violation is itself nondeterminism of the code under test.
+	ReplayTries int
 	Gen         func(r *Rand, tier Tier) C
 	Exec        func(c C, env *Env) Outcome
 	// Shrink proposes strictly simpler variants of a failing case, most
@@ -121,6 +124,7 @@ type erased struct {
 	Real, Stubs, Kinds []string
 	Quick, Thorough    Budget
 	Workers            int
+	ReplayTries        int
 	Gen                func(r *Rand, tier Tier) json.RawMessage
 	Exec               func(c json.RawMessage, env *Env) (Outcome, error)
 	Shrink             func(c json.RawMessage) []json.RawMessage
@@ -133,7 +137,7 @@ func Register[C any](s Spec[C]) {
 	e := &erased{
 		ID: s.ID, Level: s.Level, Rule: s.Rule, Assumptions: s.Assumptions,
 		Real: s.Real, Stubs: s.Stubs, Kinds: s.FaultKinds,
-		Quick: s.Quick, Thorough: s.Thorough, Workers: s.Workers,
+		Quick: s.Quick, Thorough: s.Thorough, Workers: s.Workers, ReplayTries: s.ReplayTries,
 	}
 	e.Gen = func(r *Rand, tier Tier) json.RawMessage {
 		c := s.Gen(r, tier)
